@@ -333,9 +333,9 @@ class BulkFetcher(VU):
     target = "puresnmp.api.raw:Client._bulkwalk_fetcher"
     functions = (target,)
 
-    def __init__(self, n, k):
-        self.n, self.k = n, k
-        self.name = "Client._bulkwalk_fetcher[%d oids, listing of %d]" % (n, k)
+    def __init__(self, n, k, size=None):
+        self.n, self.k, self.size = n, k, size
+        self.name = "Client._bulkwalk_fetcher[%d oids, listing of %d%s]" % (n, k, "" if size is None else ", bulk size %d" % size)
 
     def setup(self, rt, interp):
         self.rt = rt
@@ -357,8 +357,11 @@ class BulkFetcher(VU):
             return result
         rt.hooks["puresnmp.api.raw:Client.bulkget"] = bulkget_hook
         client = bare_client(rt, interp)
-        size = ctx.fresh_int("bulk_size")
-        ctx.assume(size >= 1)
+        if self.size is None:
+            size = ctx.fresh_int("bulk_size")
+            ctx.assume(size >= 1)
+        else:
+            size = self.size
         mk = get_func(rt, interp, self.target)
         fetcher = interp.call(BoundMethod(mk, client), [size], {})
         oids = [ctx.fresh_oid("q%d" % j) for j in range(self.n)]
@@ -444,7 +447,9 @@ def units_propagates(tier):
 
 def units_walkcall(tier):
     return [WalkCall(b, k, n) for b in (False, True) for (k, n) in ((0, 1), (2, 1))] + [WalkCall(True, 2, 2), WalkCall(True, 0, 3)] + [
-        BulkFetcher(n, k) for (n, k) in ((1, 0), (1, 2), (2, 3), (3, 1))]
+        BulkFetcher(n, k) for (n, k) in ((1, 0), (1, 2), (2, 3), (3, 1))] + [
+        # LARGE shapes with the sizes callers use (a split of the roots over several requests depends on both)
+        BulkFetcher(n, k, size) for (n, k, size) in ((12, 24, 10), (70, 70, 10), (12, 12, 1), (12, 24, 60), (70, 140, 200))]
 
 
 def units(tier):
